@@ -9,6 +9,22 @@ CLAIMED = {
  "C09": ("rapid generated geometries vs exact rational shoelace / 300-bit lengths",
          "Generated-input search: every case compares Area()/Length() of a generated geometry (all 7 types, 7 layouts, empty parts anywhere, magnitudes to 2^200, four construction routes) with exact rational arithmetic under the forward error bound stated in the property, plus additivity over the part accessors and no-panic. Held on everything generated; not a proof.",
          "Trusts math/big, the harness model (internal/model) and the derivation of the (n+8)*2^-52*sum|terms| bound; rings are closed by construction so trapezoid and shoelace sums denote the same quantity.", "DESIGN.md §4 C09"),
+
+ "C10": ("exhaustive integer-grid triples + rapid near-collinear floats vs big.Rat determinant sign",
+         "Bounded-exhaustive enumeration of every ordered triple of a 5x5 (quick) / 9x9 (thorough) grid plus generated-input search aimed at the region the floating-point filter cannot decide (points within a few ulps of a line, shared exponents, lattice directions on large offsets); each result of bigxy.OrientationIndex and xy.OrientationIndex is compared with the exact rational sign and with its own argument permutations.",
+         "Trusts math/big.Rat; domain restricted to |ordinate| in {0} u [1e-100,1e100] as the property states.", "DESIGN.md §4 C10"),
+ "C13": ("exhaustive 3x3-grid point lists + rapid point sets vs exact integer monotone-chain hull",
+         "Every ordered list of 1..5 points of the 3x3 grid is enumerated on every run, and generated point sets of 1..200 points (around the 50-point switch, duplicates, collinear runs, circle-like, lattices, offsets) are compared with an exact monotone-chain hull: result kind, vertex set, strict consistent turning, closure, provenance of every ordinate and input immutability.",
+         "Trusts the int64 reference hull (coordinates below 2^29 so cross products cannot overflow).", "DESIGN.md §4 C13"),
+ "C15": ("rapid integer segments/points in constructed clamping regions vs exact rational distances",
+         "Generated-input search over points, polylines and segment pairs built by construction in every clamping region of the (s,t) parameter square, degenerate, parallel, collinear and touching classes, all 8 argument-order variants; results compared with exact rational squared distances inside the tolerance the property states.",
+         "Trusts internal/exact (exact minimisation over the clamped square); tolerance 1e-9 x coordinate scale as stated by the property.", "DESIGN.md §4 C15"),
+ "C08": ("rapid geometries / Extend sequences and permutations vs per-dimension-name reference box",
+         "Generated-input search over geometries of all types and layout mixes (nested collections, empty members, +-Inf, -0), Extend sequences with a drawn permutation, boxes built three ways for the overlap predicates, Bounds.Polygon and the GeoJSON bbox; the oracle is a reference box keyed by dimension name (X,Y,Z,M,extras).",
+         "NaN ordinates excluded as the property states; a box with data in X,Y but an empty Z/M dimension is not asserted for IsEmpty/Polygon; bbox only checked when every dimension it reports holds data.", "DESIGN.md §4 C08"),
+ "C19": ("rapid tracks round-tripped through encoder+decoder; generated/mutated record streams; native fuzzing",
+         "Generated-input search: tracks over the whole 1970-2069 window (day/month/year/century boundaries, boundary angles, fractional seconds and altitudes) are encoded and decoded and compared at format resolution in rational arithmetic; line-structured streams with forged I records and B records at the announced length +-1, byte mutations and (thorough) coverage-guided fuzzing check totality and result structure under a CPU-time termination budget.",
+         "Timestamps compared to 1e-6 s (float64 resolution of UnixNano/1e9); streams longer than bufio.Scanner's 64 KiB line limit are silently truncated by the decoder, which the property permits.", "DESIGN.md §4 C19"),
 }
 PENDING_REASON = "check not built yet in this session (planned, see DESIGN.md §4); not claimed until its harness package exists"
 
